@@ -192,3 +192,35 @@ Definition ser_lossy (r : rule) : bool :=
   || match r with Rule _ b => existsb (fun p => match p with BHnsw _ _ _ _ _ _ => true | _ => false end) b end.
 Definition known_class_paths (E : env) (r : rule) : N :=
   let k := known_class E r in if negb (k =? 0) then k else if ser_lossy r then 6 else 0.
+
+(* ---------------- the submission paths (verified against the pinned tree, see Props/C09.v) *)
+(* SerializableTerm::from_term / to_term (src/statement/serialize.rs:132-160): the round trip through
+   the stored form keeps variables, integers, floats, strings, placeholders, aggregates and arithmetic,
+   and turns every other term into `_`; hnsw_nearest becomes the atom __hnsw_nearest__() *)
+Definition ser_term (t : term) : term :=
+  match t with TFun _ _ | TVec _ | TBool _ => TPh | _ => t end.
+Definition ser_atom (a : atom) : atom := match a with Atom r l => Atom r (List.map ser_term l) end.
+Definition ser_bpred (b : bpred) : bpred :=
+  match b with
+  | BPos a => BPos (ser_atom a)
+  | BNeg a => BNeg (ser_atom a)
+  | BCmp l o r => BCmp (ser_term l) o (ser_term r)
+  | BHnsw _ _ _ _ _ _ => BPos (Atom (lit "__hnsw_nearest__"%string) [])
+  end.
+Definition ser_rule (r : rule) : rule :=
+  match r with Rule h b => Rule (ser_atom h) (List.map ser_bpred b) end.
+
+Definition reparse (E : env) (r : rule) : option rule := parse_rule E (show_rule E r).
+(* text handed to the engine unchanged (StorageEngine::execute_query_tuples_on -> parse_program) *)
+Definition path_direct (E : env) (text : str) : option rule := parse_rule E text.
+(* a rule line of a handler program, and a session rule: parse_statement, Display, parse_program *)
+Definition path_printed (E : env) (text : str) : option rule :=
+  match parse_rule E text with Some r => reparse E r | None => None end.
+(* a persistent rule: parse_statement, Display, parse_rule_definition, stored form (and JSON),
+   Display (build_rule_prefix), parse_program *)
+Definition path_persistent (E : env) (text : str) : option rule :=
+  match parse_rule E text with
+  | Some r => match reparse E r with Some r1 => reparse E (ser_rule r1) | None => None end
+  | None => None
+  end.
+
